@@ -60,7 +60,7 @@ def case(item):
             return out
         d = hdr_dump.dump(pre, blocks=0)
         if not hdr_dump.usable(d):
-            out["status"] = "svtdec-failed"
+            out["status"] = "svtdec-failed:" + hdr_dump.why_unusable(d)
             return out
         ok, msg = hdr_dump.validate(pre, d)
         if not ok:
